@@ -183,6 +183,10 @@ type runStats struct {
 func (e *Engine) verifyMany(keys []string, withLemmas bool, timeoutS int, thorough bool) *runStats {
 	rs := &runStats{}
 	for _, k := range keys {
+		if msg, bad := e.contractErrs[k]; bad {
+			rs.results = append(rs.results, &FuncResult{Key: k, Err: msg})
+			continue
+		}
 		fi, ok := e.funcs[k]
 		if !ok {
 			rs.results = append(rs.results, &FuncResult{Key: k, Err: "no such function in the working tree"})
@@ -209,6 +213,15 @@ func (e *Engine) verifyMany(keys []string, withLemmas bool, timeoutS int, thorou
 				}
 			}
 			if !vis {
+				continue
+			}
+			if l.Induct != "" {
+				os2, err := e.inductionObligations(l)
+				if err != nil {
+					rs.lemmaErrs = append(rs.lemmaErrs, err.Error())
+					continue
+				}
+				rs.obls = append(rs.obls, os2...)
 				continue
 			}
 			o, err := e.lemmaObligation(l)
